@@ -23,6 +23,23 @@ CHECKS = [
           "equivariance, sums of PSD component matrices are PSD. Tie: _integration_weights, _integrate (1-D/2-D/3-D), _inner_product, "
           "DenseFunctionalData.norm/inner_product evaluated against the exact Q model; monitors for Simpson linearity, multivariate and basis data.",
   "note": STD_NOTE + " Simpson's rule is not modelled (linearity monitored only). Basis-expansion Gram matrices are monitored, not modelled."},
+ {"id": "C09",
+  "text": "Theorems (all datasets of n rows on m points): the mean is the pointwise average and is invariant under permutation of the "
+          "observations; the covariance built from the centred columns has entries <col_s,col_t>/(n-1), is symmetric and PSD (quadratic form = "
+          "squared norm /(n-1)); symmetrisation applied last makes any smoother output symmetric and fixes symmetric input; the difference-based "
+          "noise estimate is >= 0, scales with a^2, is 0 for curves shorter than the sequence, and under an additive constant c changes by the "
+          "exact amount 2c(sum d)avg(d.w)+c^2(sum d)^2, with |sum d|<=2e-4, |sum d^2-1|<=1e-3 proved for the ten difference sequences REFLECTED "
+          "from the source on every run. Tie: .mean(), .covariance(), .noise_variance(order 1..10), _estimate_noise_variance vs the exact Q "
+          "model; monitors for permutation invariance of the covariance, LP/PS-smoothed covariances (symmetry, support), per-curve averaging.",
+  "note": STD_NOTE + " Covariance permutation-invariance is monitored, not proved (C09_cov_perm_partial)."},
+ {"id": "C10",
+  "text": "Theorems: centering makes the pointwise mean zero and is idempotent (entry formula x_ij - mean_j); dividing by the norm r (oracle root, "
+          "r^2 = squared norm) gives unit norm; standardising has the entry formula (x_ij - mean_j)/sd_j guarded to 0 where sd_j = 0 (every cell "
+          "specified), and gives population variance 1 per column where it was positive; rescaling by s scales the integrated pointwise variance "
+          "by 1/s^2, hence re-estimated weight one for s = sqrt(weight). Tie: DenseFunctionalData.center/normalize/standardize/rescale (default, "
+          "use_argvals_stand, user weight) vs the exact Q model (np.sqrt/np.std enter as oracle values re-checked in Q); monitors of the promised "
+          "effects on basis-expansion, multivariate and irregular data (both encodings).",
+  "note": STD_NOTE + " Basis / multivariate / irregular variants are monitored on the implementation, not modelled."},
 ]
 
 import glob, json, os
